@@ -135,6 +135,25 @@ var deltas = func() []int64 {
 	return d
 }()
 
+// endPairs: ranges hugging the two ends of the number line, where the wrap
+// guards of the splitter (nextMin < min, nextMax > max) decide.
+func endPairs() [][2]int64 {
+	var out [][2]int64
+	for i, d := range deltas {
+		e := deltas[(i*5+2)%len(deltas)]
+		out = append(out,
+			[2]int64{math.MinInt64, math.MinInt64 + d},
+			[2]int64{math.MaxInt64 - d, math.MaxInt64},
+			[2]int64{math.MinInt64 + d, math.MaxInt64 - e},
+			[2]int64{math.MinInt64, math.MaxInt64 - e},
+			[2]int64{math.MinInt64 + d, math.MaxInt64})
+		if d <= e {
+			out = append(out, [2]int64{math.MinInt64 + d, math.MinInt64 + e}, [2]int64{math.MaxInt64 - e, math.MaxInt64 - d})
+		}
+	}
+	return out
+}
+
 // splitPair draws one (min,max) for the splitter.
 func splitPair(r *rand.Rand, pool []int64) (int64, int64) {
 	a := pool[r.Intn(len(pool))]
